@@ -36,11 +36,18 @@ type cell struct {
 	PodLabels   string `json:"podLabels"`  // the pod's other labels: app | app+never | app+always | app+never+always | nil | empty
 	Policy      string `json:"policy"`
 	APIVersion  string `json:"apiVersion"` // AdmissionReview version used on the webhook path
+	// History is not an input of the decision: it says what else ran in the process before the cell was
+	// evaluated ("fresh" or "after:NamespaceController"). The oracle ignores it on purpose.
+	History string `json:"history,omitempty"`
 }
 
 func (c cell) String() string {
-	return fmt.Sprintf("hostNet=%v ns=%s(%s) label=%s anno=%s never=%s always=%s podLabels=%s policy=%q api=%s",
-		c.HostNetwork, c.Namespace, c.NsVia, c.Label, c.Annotation, c.Never, c.Always, c.PodLabels, c.Policy, c.APIVersion)
+	h := c.History
+	if h == "" {
+		h = "fresh"
+	}
+	return fmt.Sprintf("hostNet=%v ns=%s(%s) label=%s anno=%s never=%s always=%s podLabels=%s policy=%q api=%s process=%s",
+		c.HostNetwork, c.Namespace, c.NsVia, c.Label, c.Annotation, c.Never, c.Always, c.PodLabels, c.Policy, c.APIVersion, h)
 }
 
 // normalise maps replays recorded with the first version of the table (the selector dimension then
